@@ -123,7 +123,7 @@ Qed.
 
 Lemma error_received_evolves s : evolves s (fst (error_received s)).
 Proof.
-  unfold error_received. destruct (s_fut s) as [f|]; cbn [fst]; [|apply close_transport_evolves].
+  unfold error_received. destruct (s_fut s) as [f|]; cbn [fst]; [|apply evolves_refl].
   destruct (pending s f) eqn:Hp.
   - apply evolves_trans with (b := complete s f (FExc XOSError)). apply complete_evolves; auto. discriminate. apply close_transport_evolves.
   - apply close_transport_evolves.
